@@ -68,6 +68,84 @@ Definition fp_core : list (string * mask) :=
   [ ("INDEX.CURRENT", W [FInt]); ("INDEX.DEFINE", W [FInt; FIndex]); ("INDEX.DESTINATION", W [FIndex]);
     ("INDEX.FLUSH", W [FIndex]); ("INDEX.INCREASE", W [FIndex]); ("INDEX.POP", W [FIndex]) ].
 
+(* ---- the three vector families (vector.rs); the vector stacks have no ROT ---- *)
+Definition fp_vec_family (pre : string) (f : fld) : list (string * mask) :=
+  [ (pre ++ ".DUP", W [f]); (pre ++ ".POP", W [f]); (pre ++ ".SWAP", W [f]);
+    (pre ++ ".FLUSH", W [f]); (pre ++ ".YANK", W [FInt; f]); (pre ++ ".YANKDUP", W [FInt; f]);
+    (pre ++ ".SHOVE", W [FInt; f]) ].
+
+Definition fp_bvec : list (string * mask) :=
+  fp_vec_family "BOOLVECTOR" FBvec ++
+  [ ("BOOLVECTOR.STACKDEPTH", W [FInt]); ("BOOLVECTOR.DEFINE", W [FName; FBvec; FBind]);
+    ("BOOLVECTOR.GET", W [FInt; FBool]); ("BOOLVECTOR.SET", W [FInt; FBool; FBvec]);
+    ("BOOLVECTOR.AND", W [FBvec; FInt]); ("BOOLVECTOR.OR", W [FBvec; FInt]); ("BOOLVECTOR.NOT", W [FBvec; FInt]);
+    ("BOOLVECTOR.COUNT", W [FInt]); ("BOOLVECTOR.EQUAL", W [FBvec; FBool]); ("BOOLVECTOR.ID", W [FInt]);
+    ("BOOLVECTOR.LENGTH", W [FInt]); ("BOOLVECTOR.ONES", W [FInt; FBvec]); ("BOOLVECTOR.ZEROS", W [FInt; FBvec]);
+    ("BOOLVECTOR.ROTATE", W [FBool; FBvec]); ("BOOLVECTOR.SORT*ASC", W [FBvec]); ("BOOLVECTOR.SORT*DESC", W [FBvec]) ].
+
+Definition fp_ivec : list (string * mask) :=
+  fp_vec_family "INTVECTOR" FIvec ++
+  [ ("INTVECTOR.STACKDEPTH", W [FInt]); ("INTVECTOR.DEFINE", W [FName; FIvec; FBind]);
+    ("INTVECTOR.APPEND", W [FInt; FIvec]); ("INTVECTOR.BOOLINDEX", W [FBvec; FIvec]);
+    ("INTVECTOR.GET", W [FInt]); ("INTVECTOR.SET", W [FInt; FIvec]);
+    ("INTVECTOR.+", W [FIvec; FInt]); ("INTVECTOR.-", W [FIvec; FInt]);
+    ("INTVECTOR.CONTAINS", W [FInt; FIvec; FBool]); ("INTVECTOR.EMPTY", W [FIvec]);
+    ("INTVECTOR.EQUAL", W [FIvec; FBool]); ("INTVECTOR.FROMINT", W [FInt; FIvec]); ("INTVECTOR.ID", W [FInt]);
+    ("INTVECTOR.ONES", W [FInt; FIvec]); ("INTVECTOR.ZEROS", W [FInt; FIvec]); ("INTVECTOR.MEAN", W [FFloat]);
+    ("INTVECTOR.LENGTH", W [FInt]); ("INTVECTOR.LOOP", W [FIvec; FExec; FInt]); ("INTVECTOR.REMOVE", W [FInt; FIvec]);
+    ("INTVECTOR.ROTATE", W [FInt; FIvec]); ("INTVECTOR.SORT*ASC", W [FIvec]); ("INTVECTOR.SORT*DESC", W [FIvec]);
+    ("INTVECTOR.SET*INSERT", W [FInt; FIvec]); ("INTVECTOR.SUM", W [FInt]) ].
+
+Definition fp_fvec : list (string * mask) :=
+  fp_vec_family "FLOATVECTOR" FFvec ++
+  [ ("FLOATVECTOR.STACKDEPTH", W [FInt]); ("FLOATVECTOR.DEFINE", W [FName; FFvec; FBind]);
+    ("FLOATVECTOR.GET", W [FInt; FFloat]); ("FLOATVECTOR.SET", W [FInt; FFloat; FFvec]);
+    ("FLOATVECTOR.+", W [FFvec; FInt]); ("FLOATVECTOR.-", W [FFvec; FInt]);
+    ("FLOATVECTOR.*", W [FFvec; FInt]); ("FLOATVECTOR./", W [FFvec; FInt]);
+    ("FLOATVECTOR.*SCALAR", W [FFloat; FFvec]); ("FLOATVECTOR.APPEND", W [FFloat; FFvec]);
+    ("FLOATVECTOR.EMPTY", W [FFvec]); ("FLOATVECTOR.EQUAL", W [FFvec; FBool]); ("FLOATVECTOR.ID", W [FInt]);
+    ("FLOATVECTOR.LENGTH", W [FInt]); ("FLOATVECTOR.MEAN", W [FFloat]);
+    ("FLOATVECTOR.ONES", W [FInt; FFvec]); ("FLOATVECTOR.ZEROS", W [FInt; FFvec]);
+    ("FLOATVECTOR.ROTATE", W [FFloat; FFvec]); ("FLOATVECTOR.SINE", W [FFloat; FInt; FFvec]);
+    ("FLOATVECTOR.SORT*ASC", W [FFvec]); ("FLOATVECTOR.SORT*DESC", W [FFvec]); ("FLOATVECTOR.SUM", W [FFloat]) ].
+
+Definition fp_vec : list (string * mask) := fp_bvec ++ fp_ivec ++ fp_fvec.
+
+(* ---- LIST (list.rs).  A record is built from the stacks designated by the ids of the top
+   INTVECTOR: any of the nine typed stacks may lose an item (INDEX / INPUT / OUTPUT ids
+   designate nothing). ---- *)
+Definition designated : list fld := [FBool; FBvec; FCode; FExec; FFloat; FFvec; FInt; FIvec; FName].
+Definition fp_list : list (string * mask) :=
+  [ ("LIST.ADD", W designated);                  (* id vector and designated items popped, record pushed on CODE *)
+    ("LIST.REMOVE", W [FInt; FCode]); ("LIST.GET", W [FInt; FExec]);
+    ("LIST.SET", W designated);                  (* position from INTEGER, then as LIST.ADD, record replaced on CODE *)
+    ("LIST.BVAL", W [FInt; FBool]); ("LIST.IVAL", W [FInt]); ("LIST.FVAL", W [FInt; FFloat]) ].
+
+(* ---- INPUT / OUTPUT (io.rs) ---- *)
+Definition fp_io : list (string * mask) :=
+  [ ("INPUT.AVAILABLE", W [FBool]); ("INPUT.GET", W [FInt; FBool]); ("INPUT.NEXT", W [FInput]);
+    (* the doc comment of INPUT.READ names the BOOLVECTOR stack only; the body also pushes the
+       header on INTVECTOR (finding C10/input-read-header, documentation) *)
+    ("INPUT.READ", W [FBvec; FIvec]);
+    ("INPUT.STACKDEPTH", W [FInt]);
+    ("OUTPUT.FLUSH", W [FOutput]); ("OUTPUT.WRITE", W [FBvec; FIvec; FOutput]); ("OUTPUT.STACKDEPTH", W [FInt]) ].
+
+(* ---- GRAPH (graph.rs) ---- *)
+Definition fp_graph : list (string * mask) :=
+  [ ("GRAPH.ADD", W [FGraph]); ("GRAPH.DUP", W [FGraph]); ("GRAPH.NODE*ADD", W [FInt; FGraph]);
+    ("GRAPH.NODE*GETSTATE", W [FInt]); ("GRAPH.NODE*HISTORY", W [FInt]); ("GRAPH.NODE*SETSTATE", W [FInt; FGraph]);
+    ("GRAPH.NODE*NEIGHBORS", W [FIvec; FInt]); ("GRAPH.NODE*PREDECESSORS", W [FIvec; FInt]);
+    ("GRAPH.NODE*SUCCESSORS", W [FIvec; FInt]);
+    ("GRAPH.NODE*STATESWITCH", W [FIvec; FBvec; FInt; FGraph]);
+    ("GRAPH.NODES", W [FIvec]); ("GRAPH.NODES*HISTORY", W [FInt; FIvec]); ("GRAPH.STACKDEPTH", W [FInt]);
+    ("GRAPH.PRINT", W [FName]); ("GRAPH.PRINT*DIFF", W [FName]);
+    ("GRAPH.EDGE*ADD", W [FFloat; FInt; FGraph]); ("GRAPH.EDGE*HISTORY", W [FInt; FFloat]);
+    ("GRAPH.EDGE*GETWEIGHT", W [FInt; FFloat]); ("GRAPH.EDGE*SETWEIGHT", W [FFloat; FInt; FGraph]) ].
+
+(* every registered family; a new family is one more `++` (and one more lemma in FrameProofs2.all_framed) *)
+Definition fp_all : list (string * mask) :=
+  fp_core ++ fp_bvec ++ fp_ivec ++ fp_fvec ++ fp_list ++ fp_io ++ fp_graph.
+
 Fixpoint fp_lookup (t : list (string * mask)) (n : string) : option mask :=
   match t with
   | [] => None
